@@ -241,6 +241,10 @@ fn apply(o: &mut EntryOptions, a: Opt) {
 }
 /// run a whole setter history on a fresh gate; None = some setter panicked
 pub fn run_hist(h: &[Opt]) -> Option<[u8; 16]> {
+    run_hist_addr(h).map(|(b, _)| b)
+}
+/// gate bytes and what handler_addr() reads back after the history
+pub fn run_hist_addr(h: &[Opt]) -> Option<([u8; 16], u64)> {
     catch(|| {
         let mut e: Entry<HandlerFunc> = Entry::missing();
         let o = unsafe { e.set_handler_addr(VirtAddr::new(HADDR)) };
@@ -250,7 +254,6 @@ pub fn run_hist(h: &[Opt]) -> Option<[u8; 16]> {
         (gate_bytes(&e), e.handler_addr().as_u64())
     })
     .ok()
-    .map(|(b, _)| b)
 }
 
 pub const HADDR2: u64 = 0x0000_7654_3210_f000;
@@ -307,9 +310,12 @@ fn options_search(r: &mut Rep) {
             let mut h2 = hist.clone();
             h2.push(a);
             let case = format!("gateopts {:?}", h2);
-            match run_hist(&h2) {
+            match run_hist_addr(&h2) {
                 None => r.viol("C12|option-setter|panics-on-valid-argument", &case, ""),
-                Some(b) => {
+                Some((b, ha)) => {
+                    if ha != HADDR {
+                        r.viol("C12|handler_addr|does-not-read-back-unchanged-after-an-option-setter", &case, &format!("{:#x} expected {:#x}", ha, HADDR));
+                    }
                     let got = decode_gate(&b);
                     let exp = expected_after(g, a);
                     if got != exp {
